@@ -38,6 +38,7 @@ type VerifState struct {
 	Collector bool `json:"collector"` // an LMTP status collector of a chunked transfer exists
 	TooLong   bool `json:"tooLong"`   // the over-long-line condition is set
 	Closed    bool `json:"closed"`    // the connection was given up
+	LMTP      bool `json:"lmtp"`      // the server's flavour now (a test may change it under a connection)
 }
 
 // VerifTracer, when non-nil, receives every hook event. st is nil for events
@@ -71,6 +72,7 @@ func VerifConnState(c *Conn) VerifState {
 		Collector:  c.bdatStatus != nil,
 		TooLong:    c.lineTooLong,
 		Closed:     closed,
+		LMTP:       c.server.LMTP,
 	}
 }
 
